@@ -25,7 +25,7 @@ ASSUMPTIONS = ['shadow numpy interpreter (vlib/evgen.py) is the reference; it is
                'termination is a bounded-progress claim: <= 5e4 rewrite steps / 5e7 executed lines on generator-sized DAGs',
                'float comparison bands 1e-9 (pass) / 1e-5 (violation) relative to the largest intermediate magnitude']
 BUDGET_S = {'quick': 110, 'thorough': 1500}
-NCASES = {'quick': 5000, 'thorough': 160000}
+NCASES = {'quick': 3800, 'thorough': 160000}
 NASSIGN = {'quick': 2, 'thorough': 3}
 CHUNK = 50
 WALL_NOMINATE_S = 8
